@@ -51,6 +51,8 @@ type WorkerOut struct {
 	Worker       int                `json:"worker"`
 	Runs         int                `json:"runs"`
 	Skipped      int                `json:"skipped"`
+	SweepSize    int                `json:"sweep_size"`
+	SweepRuns    int                `json:"sweep_runs"`
 	Nontrivial   int                `json:"nontrivial_runs"`
 	Steps        int64              `json:"steps"`
 	SimNS        int64              `json:"sim_ns"`
@@ -370,6 +372,11 @@ func TestWorker(t *testing.T) {
 	if p.Strata != nil {
 		strata = p.Strata(tier)
 	}
+	var sweep []Stratum
+	if p.Sweep != nil {
+		sweep = p.Sweep(tier)
+	}
+	wo.SweepSize = len(sweep)
 	fps := map[uint64]struct{}{}
 	propHash := HashString(propID)
 	wallStart := time.Now()
@@ -384,13 +391,16 @@ func TestWorker(t *testing.T) {
 		first, maxRuns, minRuns = only, only+1, 1
 	}
 	for i := first; i < maxRuns; i += nworkers {
-		if time.Since(wallStart) > budget && (i-first)/nworkers >= minRuns {
+		if time.Since(wallStart) > budget && (i-first)/nworkers >= minRuns && i >= len(sweep) {
 			break
 		}
 		seed := Mix(base, propHash, uint64(i))
 		mk := func() (*Tape, *Tape) {
 			scen := NewTape(Mix(seed, 1, 1))
-			if len(strata) > 0 && i%2 == 0 {
+			if i < len(sweep) {
+				scen.Force(sweep[i].Prefix)
+				scen.Named = sweep[i].Named
+			} else if len(strata) > 0 && i%2 == 0 {
 				scen.Force(strata[(i/2)%len(strata)])
 			}
 			return scen, NewTape(Mix(seed, 2, 2))
@@ -405,6 +415,9 @@ func TestWorker(t *testing.T) {
 		execRun(t, p, rc)
 		heartbeat.Store(0)
 		wo.Runs++
+		if i < len(sweep) {
+			wo.SweepRuns++
+		}
 		if hashLog != nil {
 			fmt.Fprintf(hashLog, "%d %016x %d %d\n", i, rc.Hash, len(rc.Violations), rc.Steps)
 		}
